@@ -358,6 +358,10 @@ class Gen:
             infix, post = build(need)
             rule = "rule r { condition: %s > 0 }" % infix
             self.add("st", "scan m=stack S=%d ss=%d prog=%s text=%s buf=61*10" % (S, S, post, hx(rule)))
+        # default configuration (no yr_set_configuration): the generated default capacity applies
+        for need in (600, 1500):
+            infix, post = build(need)
+            self.add("st", "scan m=stack prog=%s text=%s buf=61*10" % (post, hx("rule r { condition: %s > 0 }" % infix)))
 
     def matches(self):
         L = self.c["YR_MAX_STRING_MATCHES"]
